@@ -129,7 +129,9 @@ def run_tlc(module, cfg_text, workdir, files=None, workers=None, timeout=1800, s
     shutil.rmtree(meta, ignore_errors=True)
     if workers is None:
         workers = min(16, os.cpu_count() or 4)
-    java = ["java", "-XX:+UseParallelGC", "-Xss512m", "-Dfile.encoding=UTF-8"]
+    jtmp = os.path.join(workdir, "jtmp")            # TLC's own temporary directory: inside the scratch area, removed with it
+    os.makedirs(jtmp, exist_ok=True)
+    java = ["java", "-XX:+UseParallelGC", "-Xss512m", "-Dfile.encoding=UTF-8", "-Djava.io.tmpdir=" + jtmp]
     if extra_java:
         java += extra_java
     cmd = java + ["-cp", JAR, "tlc2.TLC", "-metadir", meta, "-workers", str(workers), "-config", module + ".cfg"]
